@@ -273,6 +273,22 @@ def judge(prog, abstract, cls_q: str, field: str, interp=None, dep_fields=None, 
                     fills.append((q, m))
     if not fills:
         return None, "no fill of self.%s found" % field
+    # a cache is only ever filled or reset as a whole: an entry taken out of it (pop / remove / discard / popitem / del)
+    # by anything but a public mutator makes the next answer depend on the calls made before
+    for q in fam:
+        for m in prog.classes[q].methods.values():
+            if m.name == "__init__" or m.name in MUTATORS.get(q, ()):
+                continue
+            for node in ast.walk(m.node):
+                if isinstance(node, ast.Call) and isinstance(node.func, ast.Attribute) and \
+                        node.func.attr in ("pop", "remove", "discard", "popitem", "popleft") and \
+                        any(_is_self_attr(x, field) for x in ast.walk(node.func.value)):
+                    return None, "%s.%s takes entries out of self.%s (%s): it is consumed, not kept" % (
+                        prog.classes[q].name, m.name, field, node.func.attr)
+                if isinstance(node, ast.Delete) and any(isinstance(t, ast.Subscript) and any(
+                        _is_self_attr(x, field) for x in ast.walk(t.value)) for t in node.targets):
+                    return None, "%s.%s deletes entries of self.%s: it is consumed, not kept" % (
+                        prog.classes[q].name, m.name, field)
     missing = []
     n_mut = 0
     for q in fam:
